@@ -325,15 +325,14 @@ def runs(tier, seed):
 
 def fixed_schedule_float(nmax):
     """float-level: the real non-adaptive rule of determine_beta performs exactly n steps for every n <= nmax"""
-    import types
-    from aspire.samplers.smc.base import SMCSampler
-    ns = types.SimpleNamespace(adaptive=False)
+    ns = Problem(dims=1, seed=0).sampler()       # a real sampler object, configured the way sample(adaptive=False) does
+    ns.adaptive = False
     bad = []
     for n in range(1, nmax + 1):
         beta, it = 0.0, 0
         step = 1 / n
         while beta != 1.0 and it <= n + 2:
-            beta, _ = SMCSampler.determine_beta(ns, None, beta, step, 0.0)
+            beta, _ = ns.determine_beta(None, beta, step, 0.0)
             it += 1
         if it != n:
             bad.append((n, it))
